@@ -12,6 +12,7 @@ from hypothesis import strategies as st
 
 from vlib import tree
 from vlib.core import hyp_run
+from vlib.ref import automata as AU
 from vlib.ref import globlang as G
 
 ID = "C05"
@@ -23,7 +24,9 @@ RULE = (
     "narrow(g) => matches => wide(g) (wide: '**/' may match zero directories).  Plus Hypothesis: longer globs over a larger alphabet "
     "incl. regex metacharacters and non-ASCII, several globs per item, paths obtained by instantiating the glob's wildcards and mutating; "
     "plus sampled pairs through a real REUSE.toml and `reuse lint --json`.  UNSPECIFIED (counted, not judged): trailing lone backslash, "
-    "runs of >= 3 asterisks.  Non-trivial = glob with a wildcard or escape for which the explored path set holds both a matching and a "
+    "runs of >= 3 asterisks.  In addition, for every glob the tool's compiled pattern is turned into an automaton (when it stays inside the fragment "
+    "literal / .* / [^/]* / (?:.*/)? / alternation) and compared with the reference automata by language inclusion; shortest witnesses of any length are "
+    "judged by the real call.  Non-trivial = glob with a wildcard or escape for which the explored path set holds both a matching and a "
     "non-matching path; distinct by glob text."
 )
 ASSUMPTIONS = [
@@ -54,12 +57,36 @@ def judge(ctx, globs, path, real, narrow, wide):
         ctx.fail({"globs": list(globs), "path": path}, f"path {path!r} is outside the language of {list(globs)!r} (even with '**/' matching zero directories) but matches() is True")
 
 
+def check_by_inclusion(ctx, globs, item):
+    """Unbounded path quantifier: product of the reference automata with the
+    automaton of the tool's compiled pattern gives witnesses of any length; each
+    witness is then judged by the real matches() call."""
+    pattern = getattr(getattr(item, "_paths_regex", None), "pattern", None)
+    if pattern is None:
+        ctx.label("inclusion:no-compiled-pattern")
+        return
+    try:
+        found = list(AU.witnesses(list(globs), pattern))
+    except AU.OutsideFragment:
+        ctx.label("inclusion:pattern-outside-fragment")
+        return
+    ctx.label("inclusion:decided")
+    comp = [G.compile_glob(g) for g in globs]
+    for w, _kind in found:
+        r = bool(item.matches(w))
+        n = any(c[0](w) is not None for c in comp)
+        wd = any(c[1](w) is not None for c in comp)
+        ctx.label("inclusion:witness")
+        judge(ctx, globs, w, r, n, wd)
+
+
 def check_glob_exhaustive(ctx, glob, paths):
     nf, wf, spec = G.compile_glob(glob)
     if not spec:
         ctx.excluded["unspecified-glob"] += 1
         return
     item = real_item([glob])
+    check_by_inclusion(ctx, [glob], item)
     m = item.matches
     any_match = any_miss = False
     for p in paths:
@@ -128,6 +155,8 @@ def check_random(ctx, case):
         ctx.excluded["unspecified-glob"] += 1
         return
     item = real_item(globs)
+    if all("\n" not in g for g in globs):
+        check_by_inclusion(ctx, globs, item)
     any_match = any_miss = False
     for p in paths:
         r = bool(item.matches(p))
